@@ -1,4 +1,5 @@
 import RxProofs.Lemmas.CombN
+import RxProofs.Lemmas.CombPhase
 /-!
 # C13 — multi-source combinators follow their pairing rules
 
@@ -126,6 +127,65 @@ example :
     outVals (run (wlfM 1) (wlfInit 1)
       [.src 0 (.next 1), .src 1 (.next 10), .src 1 (.next 11), .src 0 (.next 2), .src 1 .completed, .src 0 (.next 3)])
       = [[2, 11], [3, 11]] := by decide
+
+/-- **wlf_eq_reference.** with_latest_from = the self-contained reference `wlfRefRun` for EVERY event list: the reference keeps
+only the latest value of every other source, which sources have finished and whether the result has finished (no
+subscriptions, no plumbing) and reads the tagged events in order — an element of the primary goes out with the latest values
+if every other source has one; the first error, or the primary's completion, finishes the result; notifications of finished
+sources, of non-sources, and after the end are ignored. Composed with `tlEvents` (cold timelines → the event list:
+virtual-time order, simultaneous notifications in SUBSCRIPTION order = the others before the primary) this is the
+timeline-level rule the harness calls `wlf_reference`. -/
+theorem wlf_eq_reference {α} (m : Nat) (es : List (Ev α)) :
+    emits (run (wlfM m) (wlfInit m) es) = wlfRefRun m {} es :=
+  wlf_ref_run m es {} (wlfInit m) (wlf_init_sim m)
+
+theorem wlf_timeline_reference {α} (m : Nat) (tls : List (Nat × List (Nat × Notif α))) :
+    emits (run (wlfM m) (wlfInit m) ((tlEvents tls).map (·.2))) = wlfRefRun m {} ((tlEvents tls).map (·.2)) :=
+  wlf_eq_reference m _
+
+/-- **wlf_phased_only_primary.** The same rule with the subscribe LOOP in the trace (`phased`: a `tick` subscribes the next
+source, the others first and the primary last, and sources may notify inside their own subscribe call, between two ticks):
+whatever is interleaved, a value goes out only for a primary element delivered when every other source already has a value.
+So `of(1,2,3).pipe(with_latest_from(of(10)))` pairs every element with 10, because 10 is delivered before the primary is even
+subscribed. -/
+theorem wlf_phased_only_primary {α} (m : Nat) (es : List (Ev α)) :
+    outVals (run (phased (wlfM m)) (phasedInit {} (wlfInitSubs m)) es)
+      = specRun wlfStep (wlfOut m) (fun _ => none)
+          (accepted (phased (wlfM (α := α) m)) (phasedInit {} (wlfInitSubs m)) es) :=
+  spec_run (phased (wlfM (α := α) m)) (fun st => st.p.WF) (fun s => s.s.vals) wlfStep (wlfOut m)
+    (fun st e h => step_WF _ st e h) (fun st e h => wlf_phased_step_out m st e h) es _ (by intro h; simp [phasedInit] at h)
+
+/-- non-vacuity: of(1,2,3).pipe(with_latest_from(of(10))) — ticks are the loop subscribing source 1 (the other), then 0 -/
+example :
+    outVals (run (phased (wlfM (α := Nat) 1)) (phasedInit {} (wlfInitSubs 1))
+      [.tick, .src 1 (.next 10), .src 1 .completed, .tick, .src 0 (.next 1), .src 0 (.next 2), .src 0 (.next 3), .src 0 .completed])
+      = [[1, 10], [2, 10], [3, 10]] := by decide
+
+/-- **static_phase_eq_plain.** For every static operator: if no source notifies inside the subscribe loop, the phased machine
+is the plain machine preceded by the loop's subscribe effects (so every theorem about the plain machines applies to it). -/
+theorem static_phase_eq_plain {σ ι β} (m : Machine σ ι β) (htick : ∀ s d, m.tick s d = (s, [])) (s : σ) (order : List Nat)
+    (es : List (Ev ι)) :
+    run (phased m) (phasedInit s order) (List.replicate order.length (Ev.tick (ι := ι)) ++ es)
+      = order.map Eff.sub ++ run m ⟨s, { done := false, live := order }⟩ es :=
+  phased_eq_plain m htick s order es
+
+theorem zip_phase_eq_plain {α} (n : Nat) (es : List (Ev α)) :
+    run (phased (zipM (α := α) n)) (phasedInit {} (List.range n)) (List.replicate n (Ev.tick (ι := α)) ++ es)
+      = (List.range n).map Eff.sub ++ run (zipM n) (zipInit n) es := by
+  simpa [zipInit, startAll] using phased_eq_plain (zipM (α := α) n) (fun _ _ => rfl) {} (List.range n) es
+
+/-- **late_subscription_in_loop_closed.** The subscribe loop does not stop when an earlier source has already terminated the
+result from inside its own subscribe call: it goes on subscribing the remaining sources — and each of them is closed in the
+same step (the known C03 finding "subscribe loop after a synchronous terminal", as the machines show it). -/
+theorem late_subscription_in_loop_closed {σ ι β} (m : Machine σ ι β) (s : σ) (k : Nat) (r : List Nat) (p : Plumb)
+    (hd : p.done = true) :
+    (step (phased m) ⟨⟨s, k :: r⟩, p⟩ (Ev.tick (ι := ι))).2 = [Eff.sub k, Eff.unsub k] :=
+  (phased_late_subscription m s k r p hd).1
+
+/-- non-vacuity: zip of three, source 0 fails inside its subscribe: the error goes out, 1 and 2 are still subscribed and closed at once -/
+example :
+    run (phased (zipM (α := Nat) 3)) (phasedInit {} (List.range 3)) [.tick, .src 0 (.error "e"), .tick, .src 1 (.next 5), .tick]
+      = [.sub 0, .emit (.error "e"), .unsub 0, .sub 1, .unsub 1, .sub 2, .unsub 2] := by decide
 
 /-- **fork_join_last_values.** fork_join obeys, for every event list, the rule `fjOut`/`fjStep` over the delivered
 notifications: remember the last element of every source and which sources completed; the completion that makes ALL
